@@ -424,7 +424,7 @@ func run(c *hc.Ctx) error {
 	}
 
 	// ---- 1. clock scripts through MessageIDGen.New
-	nScripts := c.N(4000, 250000)
+	nScripts := c.N(12000, 300000)
 	for i := 0; i < nScripts; i++ {
 		n := hc.Pick(r, 1, 2, 3, r.Range(2, 12), r.Range(2, 12), r.Range(10, 60), r.Range(10, 60), r.Range(60, 300))
 		if r.Chance(2) {
@@ -455,7 +455,7 @@ func run(c *hc.Ctx) error {
 	}
 
 	// ---- 2. NewMessageIDNano and MessageID.Time/Type on single values
-	nSingles := c.N(20000, 1000000)
+	nSingles := c.N(60000, 1500000)
 	for i := 0; i < nSingles; i++ {
 		nano := baseNano(r)
 		typ := proto.MessageType(r.Intn(4))
@@ -488,7 +488,7 @@ func run(c *hc.Ctx) error {
 	}
 
 	// ---- 3. Conn.nextMsgSeq, sequential
-	nConn := c.N(2000, 100000)
+	nConn := c.N(6000, 150000)
 	for i := 0; i < nConn; i++ {
 		n := hc.Pick(r, 1, 2, r.Range(2, 10), r.Range(10, 80), r.Range(80, 300))
 		cs, _ := genScript(r, n)
@@ -517,7 +517,7 @@ func run(c *hc.Ctx) error {
 
 	// ---- 4. Conn.nextMsgSeq from 1..8 goroutines; the k-th critical section reads the k-th clock
 	// value (the clock is read under both locks), so the trace in id order is a sequential run.
-	nPar := c.N(300, 20000)
+	nPar := c.N(1000, 30000)
 	for i := 0; i < nPar; i++ {
 		workers := r.Range(1, 8)
 		per := r.Range(1, 40)
